@@ -61,6 +61,9 @@ type Exec struct {
 	forkAt   map[string]int
 	funcs    map[string]bool
 	toUpperMemo map[string]*StrV
+	undo     []func()
+	onceDone map[*Obj]bool
+	pools    map[*Obj][]Val
 	known    map[*Term]bool // alternatives asserted on the current path (pointer-equal terms are implied)
 }
 
@@ -70,6 +73,7 @@ type obsItem struct {
 }
 
 type frame struct {
+	defers      []func()
 	phiOverride map[*ssa.Phi]Val
 	fn    *ssa.Function
 	env   map[ssa.Value]Val
@@ -489,6 +493,7 @@ func (ex *Exec) instr(fr *frame, in ssa.Instruction) {
 		if ex.initDone && p.o.glb != "" {
 			ex.sharedWrite("store to shared object reachable from package variable " + p.o.glb + " at " + ex.pos(x.Pos()) + " in " + x.Parent().Name())
 		}
+		ex.journal(p.o)
 		store(p.o, ex.get(fr, x.Val))
 	case *ssa.MakeClosure:
 		f := &FuncV{fn: x.Fn.(*ssa.Function)}
@@ -500,9 +505,13 @@ func (ex *Exec) instr(fr *frame, in ssa.Instruction) {
 		fr.env[x] = ex.doCall(fr, x)
 	case *ssa.MakeSlice:
 		n := int(ex.concretize(ex.get(fr, x.Len).(*Term)))
+		c := int(ex.concretize(ex.get(fr, x.Cap).(*Term)))
+		if n < 0 || c < n || c > 1<<24 {
+			ex.rtpanic(x, "makeslice: len or cap out of range")
+		}
 		et := x.Type().Underlying().(*types.Slice).Elem()
-		s := &SliceV{len: n, cap: n}
-		for i := 0; i < n; i++ {
+		s := &SliceV{len: n, cap: c}
+		for i := 0; i < c; i++ {
 			s.arr = append(s.arr, newObj(et))
 		}
 		fr.env[x] = s
@@ -517,10 +526,54 @@ func (ex *Exec) instr(fr *frame, in ssa.Instruction) {
 		if ex.initDone && m.shared {
 			ex.sharedWrite("update of shared map at " + ex.pos(x.Pos()) + " in " + x.Parent().Name())
 		}
+		if ex.initDone && m.shared {
+			old, had := m.m[k]
+			ex.undo = append(ex.undo, func() {
+				if had {
+					m.m[k] = old
+				} else {
+					delete(m.m, k)
+				}
+				m.byLen = nil
+			})
+		}
 		m.m[k] = ex.get(fr, x.Value)
 		m.byLen = nil
 	case *ssa.MakeInterface:
 		fr.env[x] = ex.get(fr, x.X)
+	case *ssa.TypeAssert:
+		v := ex.get(fr, x.X)
+		if x.CommaOk {
+			fr.env[x] = TupleV{v, BoolC(v != nil)}
+		} else {
+			if v == nil {
+				ex.rtpanic(x, "interface conversion: interface is nil")
+			}
+			fr.env[x] = v
+		}
+	case *ssa.Defer:
+		cc := x.Common()
+		var args []Val
+		for _, a := range cc.Args {
+			args = append(args, ex.get(fr, a))
+		}
+		if cc.IsInvoke() {
+			ex.end("unsupported", "deferred interface invoke")
+		}
+		switch f := cc.Value.(type) {
+		case *ssa.Function:
+			fr.defers = append(fr.defers, func() { ex.call(f, args, nil) })
+		case *ssa.Builtin:
+			ex.end("unsupported", "deferred builtin")
+		default:
+			fv := ex.get(fr, cc.Value).(*FuncV)
+			fr.defers = append(fr.defers, func() { ex.call(fv.fn, args, fv.env) })
+		}
+	case *ssa.RunDefers:
+		for i := len(fr.defers) - 1; i >= 0; i-- {
+			fr.defers[i]()
+		}
+		fr.defers = nil
 	case *ssa.DebugRef:
 	default:
 		ex.end("unsupported", fmt.Sprintf("instr %T at %s", in, ex.pos(in.Pos())))
@@ -573,7 +626,21 @@ func (ex *Exec) builtin(x *ssa.Call, b *ssa.Builtin, args []Val) Val {
 				add = append(add, b)
 			}
 		}
-		// always reallocate: simple and safe for non-aliasing uses
+		if s.len+len(add) <= s.cap && s.off+s.cap <= len(s.arr) && len(add) > 0 {
+			// room in the backing array: Go appends in place (this is how a shared package-level buffer gets written)
+			for i, v := range add {
+				tgt := s.arr[s.off+s.len+i]
+				if ex.initDone && tgt.glb != "" {
+					ex.sharedWrite("append into the backing array of shared slice reachable from package variable " + tgt.glb + " at " + ex.pos(x.Pos()) + " in " + x.Parent().Name())
+				}
+				ex.journal(tgt)
+				store(tgt, v)
+			}
+			return &SliceV{arr: s.arr, off: s.off, len: s.len + len(add), cap: s.cap}
+		}
+		if len(add) == 0 {
+			return s
+		}
 		n := &SliceV{}
 		for i := 0; i < s.len; i++ {
 			n.arr = append(n.arr, objFromVal(load(s.arr[s.off+i])))
@@ -584,8 +651,77 @@ func (ex *Exec) builtin(x *ssa.Call, b *ssa.Builtin, args []Val) Val {
 		n.len, n.cap = len(n.arr), len(n.arr)
 		return n
 	}
+	switch b.Name() {
+	case "copy":
+		dst := args[0].(*SliceV)
+		var src []Val
+		switch t := args[1].(type) {
+		case *SliceV:
+			for i := 0; i < t.len; i++ {
+				src = append(src, load(t.arr[t.off+i]))
+			}
+		case *StrV:
+			for _, bb := range t.b {
+				src = append(src, bb)
+			}
+		}
+		k := len(src)
+		if dst.len < k {
+			k = dst.len
+		}
+		for i := 0; i < k; i++ {
+			tgt := dst.arr[dst.off+i]
+			if ex.initDone && tgt.glb != "" {
+				ex.sharedWrite("copy into shared slice reachable from package variable " + tgt.glb + " at " + ex.pos(x.Pos()) + " in " + x.Parent().Name())
+			}
+			ex.journal(tgt)
+			store(tgt, src[i])
+		}
+		ex.cost += k
+		return BVC(64, uint64(k))
+	case "cap":
+		if sv, ok := args[0].(*SliceV); ok {
+			return BVC(64, uint64(sv.cap))
+		}
+	case "min", "max":
+		r := args[0].(*Term)
+		for _, o := range args[1:] {
+			t := o.(*Term)
+			_, signed, _ := bw(x.Type())
+			op := "bvult"
+			if signed {
+				op = "bvslt"
+			}
+			var c *Term
+			if b.Name() == "min" {
+				c = Cmp(op, t, r)
+			} else {
+				c = Cmp(op, r, t)
+			}
+			r = Ite(c, t, r)
+		}
+		return r
+	}
 	ex.end("unsupported", "builtin "+b.Name())
 	return nil
+}
+
+// journal records the current content of a shared object so that it can be restored when the path ends
+// (paths must not see each other's writes to package-level state).
+func (ex *Exec) journal(o *Obj) {
+	if !ex.initDone || o.glb == "" {
+		return
+	}
+	old := load(o)
+	ex.undo = append(ex.undo, func() { store(o, old) })
+}
+
+func (ex *Exec) rollback() {
+	for i := len(ex.undo) - 1; i >= 0; i-- {
+		ex.undo[i]()
+	}
+	ex.undo = nil
+	ex.pools = nil
 }
 
 // ---------- operators
@@ -741,6 +877,9 @@ func (ex *Exec) loadSym(p *SymElem) Val {
 			}
 			return t.String()
 		case *FuncV:
+			if t.fn == nil {
+				return "<nil func>"
+			}
 			return t.fn.String()
 		}
 		ex.end("unsupported", fmt.Sprintf("table elem %T", v))
